@@ -1,10 +1,14 @@
 (* C07 - FEC reconstructs exactly the missing packets from any k of n.
    Statements only; every proof is `exact <lemma>`.  The codec is the abstract record of Codec.v;
-   `mds (mk d p) d p` is a visible premise, discharged BY COMPUTATION for the executable codec
-   Rs.v (klauspost's buildMatrix, independent implementation) for d+p <= 8 and for 10/3. *)
+   `mds (mk d p) d p` is a visible premise of the codec-generic theorems; it is PROVED for the
+   executable codec Rs.v (klauspost's buildMatrix: Vandermonde times the inverse of its top
+   square over GF(2^8)/0x11d, independent implementation) for EVERY ratio with d + p <= 256
+   (c07_mds_rs_all: field laws of gmul, correctness of the Gauss-Jordan inversion, the
+   Vandermonde kernel theorem), so that c07_recover_rs / c07_only_originals_rs carry no codec
+   premise at all. *)
 From Coq Require Import ZArith List Bool Lia.
 From KV.Base Require Import Consts Word.
-From KV.Fec Require Import Gf256 Codec Rs AutoTune Fec FecSpec FecProofs FecProofs2 EncProofs RsProofs RsMds FecTheorems.
+From KV.Fec Require Import Gf256 Codec Rs AutoTune Fec FecSpec FecProofs FecProofs2 EncProofs RsProofs RsMds RsMdsAll FecTheorems.
 Import ListNotations.
 Local Open Scope Z_scope.
 
@@ -122,7 +126,54 @@ Theorem c07_encoder_layout :
 Proof. exact t_c07_encoder_layout. Qed.
 Print Assumptions c07_encoder_layout.
 
-(* MDS BY COMPUTATION for the executable codec: every (d,p) with d+p <= 8, and 10/3. *)
+(* MDS, PROVED for the executable Reed-Solomon codec and every ratio the library can configure
+   (reedsolomon.New needs d + p <= 256): any d of the d+p shards of a codeword determine the data.
+   Proof: GF(2^8) field laws (GfField.v), Gauss-Jordan `invert` returns a two-sided inverse of
+   every matrix with trivial kernel (GaussInv.v), a Vandermonde matrix on distinct points has
+   trivial kernel (Vander.v: a polynomial of degree < d with d distinct roots is zero), hence
+   every d rows of  V * (V_top)^-1  are invertible and its top square is the identity. *)
+Theorem c07_mds_rs_all : forall d p : Z, 0 < d -> 0 <= p -> d + p <= 256 -> mds (rs_codec d p) d p.
+Proof. exact rs_mds_all. Qed.
+Print Assumptions c07_mds_rs_all.
+
+(* ... so for the library's codec RECOVER and ONLY ORIGINALS hold with no premise on the codec *)
+Theorem c07_recover_rs :
+  forall (d p : Z) (book : Z -> list bytes),
+    cfg_ok d p -> book_ok d book ->
+  forall (st : fecdec) (g : Z) (i : nat) (pkt : bytes),
+    dec_inv (rs_codec d p) d p book st -> genuine_at (rs_codec d p) d p book g i pkt ->
+    ~ In (pk_seqid pkt) (map pk_seqid (held st g)) ->
+    Z.of_nat (length (held st g)) + 1 = d ->
+    exists st',
+      dec_decode rs_codec st pkt =
+        Ok (st', missing_images d (imgs_of book g) (map (pos_of (d + p)) (pkt :: held st g))) /\
+      dec_inv (rs_codec d p) d p book st' /\
+      concat (map strip_rec (missing_images d (imgs_of book g) (map (pos_of (d + p)) (pkt :: held st g)))) =
+      map (fun k => (nth k (book g) [], c_IKCP_PACKET_FEC))
+          (filter (fun k => negb (existsb (Nat.eqb k) (map (pos_of (d + p)) (pkt :: held st g))))
+                  (seq 0 (Z.to_nat d))).
+Proof.
+  exact (fun d p book Hc => decode_recover rs_codec d p book Hc
+           (rs_mds_all d p (proj1 Hc) (Z.lt_le_incl _ _ (proj1 (proj2 Hc))) (proj2 (proj2 Hc)))).
+Qed.
+Print Assumptions c07_recover_rs.
+
+Theorem c07_only_originals_rs :
+  forall (d p : Z) (book : Z -> list bytes),
+    cfg_ok d p -> book_ok d book ->
+  forall (h : list bytes), Forall (genuine (rs_codec d p) d p book) h ->
+  exists st0 st' outs,
+    dec_new d p = Some st0 /\ run_dec rs_codec st0 h = Ok (st', outs) /\
+    Forall2 (fun pkt out => forall r, In r out ->
+               exists g i, genuine_at (rs_codec d p) d p book g i pkt /\ original_of d book g r) h outs.
+Proof.
+  exact (fun d p book Hc => t_c07_only_originals rs_codec d p book Hc
+           (rs_mds_all d p (proj1 Hc) (Z.lt_le_incl _ _ (proj1 (proj2 Hc))) (proj2 (proj2 Hc)))).
+Qed.
+Print Assumptions c07_only_originals_rs.
+
+(* the earlier computational instances (kept: they exercise check_mds by vm_compute, an
+   independent path to the same fact for d+p <= 8 and 10/3) *)
 Theorem c07_mds_rs_le8 : forall d p : Z, 0 < d -> 0 < p -> d + p <= 8 -> mds (rs_codec d p) d p.
 Proof. exact rs_mds_le8. Qed.
 Print Assumptions c07_mds_rs_le8.
